@@ -59,7 +59,13 @@ func (check) Plan(tier string, seed int64) []harness.Batch {
 	}
 	for i := 0; i < nb; i++ {
 		s, _ := json.Marshal(spec{Kind: "sessions", N: per})
-		bs = append(bs, harness.Batch{Name: fmt.Sprintf("sessions-%d", i), Seed: seed*1000003 + int64(i), Spec: s, TimeoutS: 1500})
+		b := harness.Batch{Name: fmt.Sprintf("sessions-%d", i), Seed: seed*1000003 + int64(i), Spec: s, TimeoutS: 1500}
+		if i%8 == 5 {
+			// extended colours written with semicolons
+			b.Name = fmt.Sprintf("sessions-legacy-sgr-%d", i)
+			b.Env = []string{"VAXIS_FORCE_LEGACY_SGR=1"}
+		}
+		bs = append(bs, b)
 	}
 	for i := 0; i < pairSets; i++ {
 		for part := 0; part < 4; part++ {
